@@ -6,7 +6,7 @@ After every operation get_state()/live/modified() of *every* flow is observed; c
 numbers (canonical rendering), so that the Lean heap model (which does not interpret component values) can be
 run on the same history: edits tell the model the new component value, everything else is predicted by it.
 """
-import json, warnings
+import json, os, warnings
 from common.check import PropertyCheck
 
 warnings.simplefilter("ignore", DeprecationWarning)
@@ -23,6 +23,9 @@ TYPES = ["http", "ws", "tcp", "udp", "dns"]
 MAXFLOWS = 4
 
 
+_ALIEN = []
+
+
 def canon(v):
     if isinstance(v, dict):
         return "{" + ",".join(sorted(canon(k) + ":" + canon(x) for k, x in v.items())) + "}"
@@ -33,6 +36,7 @@ def canon(v):
     if isinstance(v, bool) or v is None: return repr(v)
     if isinstance(v, float) and v.is_integer(): return repr(int(v))
     if isinstance(v, (int, float)): return repr(v)
+    _ALIEN.append(type(v).__name__)          # not a state value: a live object leaked into get_state()
     return "?" + type(v).__name__ + repr(v)
 
 
@@ -99,8 +103,57 @@ def e_dresp_code(f, a):
     if f.response: f.response.response_code = [0, 3, 2][a]
 
 
+# --- empty-but-present containers and in-place edits of exactly those objects (seed c40-5 and its class)
+from mitmproxy import http as _http, certs as _certs, dns as _dns
+_CERT = None
+def _cert():
+    global _CERT
+    if _CERT is None: _CERT = _certs.Cert.from_pem(open(os.path.join(os.path.dirname(_http.__file__), "..", "test", "mitmproxy", "net", "data", "text_cert"), "rb").read())
+    return _CERT
+def _trl(a): return [None, _http.Headers(), _http.Headers([(b"tr", b"1")])][a]
+def e_req_trailers(f, a): f.request.trailers = _trl(a)
+def e_req_trailer_set(f, a):
+    if f.request.trailers is not None: f.request.trailers["t%d" % (a % 2)] = "v%d" % a
+def e_resp_trailers(f, a):
+    if f.response: f.response.trailers = _trl(a)
+def e_resp_trailer_set(f, a):
+    if f.response and f.response.trailers is not None: f.response.trailers["t%d" % (a % 2)] = "v%d" % a
+def e_req_headers_new(f, a): f.request.headers = [_http.Headers(), _http.Headers([(b"only", b"1")]), _http.Headers()][a]
+def e_resp_headers_new(f, a):
+    if f.response: f.response.headers = [_http.Headers(), _http.Headers([(b"only", b"1")]), _http.Headers()][a]
+def e_resp_header(f, a):
+    if f.response:
+        if a == 2: f.response.headers.pop("x-r", None)
+        else: f.response.headers["x-r"] = str(a)
+def e_req_content_none(f, a): f.request.content = [None, b"", None][a]
+def e_resp_content_none(f, a):
+    if f.response: f.response.content = [None, b"", None][a]
+def e_cc_offers(f, a):
+    l = f.client_conn.alpn_offers
+    if a == 2 or len(l) > 2: del l[:]
+    else: l.append([b"h2", b"http/1.1"][a])
+def e_cc_ciphers(f, a):
+    l = f.client_conn.cipher_list
+    if a == 2 or len(l) > 2: del l[:]
+    else: l.append(["C1", "C2"][a])
+def e_sc_certs(f, a):
+    l = f.server_conn.certificate_list
+    if a == 2 or len(l) > 1: del l[:]
+    else: l.append(_cert())
+def e_cc_certs(f, a):
+    l = f.client_conn.certificate_list
+    if a == 2 or len(l) > 1: del l[:]
+    else: l.append(_cert())
+def e_dreq_q_clear(f, a): f.request.questions = []
+def e_dreq_q_append(f, a):
+    if len(f.request.questions) < 3: f.request.questions.append(_dns.Question(["n0.example", "n1.example", "n2.example"][a], 1, 1))
+def e_msg_clear(f, a): del f.messages[:]
+
+
 # name -> (component key, model op, function)
 EDITS_COMMON = {
+    "cc_offers": ("client_conn", "mut", e_cc_offers), "cc_ciphers": ("client_conn", "mut", e_cc_ciphers),
+    "cc_certs": ("client_conn", "mut", e_cc_certs), "sc_certs": ("server_conn", "mut", e_sc_certs),
     "cc_sni": ("client_conn", "mut", e_cc_sni), "cc_alpn": ("client_conn", "mut", e_cc_alpn),
     "sc_addr": ("server_conn", "mut", e_sc_addr), "sc_sni": ("server_conn", "mut", e_sc_sni),
     "err_set": ("error", "reb", e_err_set), "err_msg": ("error", "mut", e_err_msg),
@@ -111,6 +164,11 @@ EDITS_COMMON = {
     "ts_created": ("timestamp_created", "reb", e_ts_created),
 }
 EDITS_HTTP = {
+    "req_trailers": ("request", "mut", e_req_trailers), "req_trailer_set": ("request", "mut", e_req_trailer_set),
+    "resp_trailers": ("response", "mut", e_resp_trailers), "resp_trailer_set": ("response", "mut", e_resp_trailer_set),
+    "req_headers_new": ("request", "mut", e_req_headers_new), "resp_headers_new": ("response", "mut", e_resp_headers_new),
+    "resp_header": ("response", "mut", e_resp_header),
+    "req_content_none": ("request", "mut", e_req_content_none), "resp_content_none": ("response", "mut", e_resp_content_none),
     "req_path": ("request", "mut", e_req_path), "req_method": ("request", "mut", e_req_method),
     "req_content": ("request", "mut", e_req_content), "req_header": ("request", "mut", e_req_header),
     "req_replace": ("request", "reb", e_req_replace), "resp_status": ("response", "mut", e_resp_status),
@@ -122,10 +180,12 @@ EDITS_WS = {
     "ws_set": ("websocket", "reb", e_ws_set), "ws_close": ("websocket", "mut", e_ws_close),
 }
 EDITS_MSG = {
+    "msg_clear": ("messages", "mut", e_msg_clear),
     "msg_append": ("messages", "mut", e_msg_append), "msg_edit": ("messages", "mut", e_msg_edit),
     "msg_pop": ("messages", "mut", e_msg_pop), "msg_replace": ("messages", "reb", e_msg_replace),
 }
 EDITS_DNS = {
+    "dreq_q_clear": ("request", "mut", e_dreq_q_clear), "dreq_q_append": ("request", "mut", e_dreq_q_append),
     "dreq_id": ("request", "mut", e_dreq_id), "dreq_q": ("request", "mut", e_dreq_q),
     "dreq_replace": ("request", "reb", e_dreq_replace), "dresp_set": ("response", "reb", e_dresp_set),
     "dresp_code": ("response", "mut", e_dresp_code),
@@ -135,6 +195,23 @@ EDITS = {"http": {**EDITS_COMMON, **EDITS_HTTP}, "ws": {**EDITS_COMMON, **EDITS_
          "dns": {**EDITS_COMMON, **EDITS_DNS}}
 SPECIFIC = {"http": EDITS_HTTP, "ws": {**EDITS_HTTP, **EDITS_WS}, "tcp": EDITS_MSG, "udp": EDITS_MSG, "dns": EDITS_DNS}
 CONTROL = ("backup", "revert", "copy")
+# (emptying edit, arg) -> in-place edits of the emptied object
+_HTTP_EMPTY = [(("req_trailers", 1), [("req_trailer_set", 0), ("req_trailer_set", 1)]),
+               (("resp_trailers", 1), [("resp_trailer_set", 0), ("resp_trailer_set", 1)]),
+               (("req_headers_new", 0), [("req_header", 0), ("req_header", 1), ("req_content", 2)]),
+               (("resp_headers_new", 0), [("resp_header", 0), ("resp_header", 1), ("resp_content", 2)]),
+               (("req_content_none", 1), [("req_header", 1)]), (("req_content_none", 0), [("req_header", 0)]),
+               (("resp_content_none", 1), [("resp_header", 1)]), (("resp_content_none", 0), [("resp_header", 0)])]
+EMPTY_THEN = {
+    "http": _HTTP_EMPTY,
+    "ws": _HTTP_EMPTY + [(("ws_set", 0), [("ws_append", 0), ("ws_append", 1)])],
+    "tcp": [(("msg_replace", 0), [("msg_append", 0), ("msg_append", 1)]), (("msg_clear", 0), [("msg_append", 0), ("msg_append", 1)])],
+    "udp": [(("msg_replace", 0), [("msg_append", 0), ("msg_append", 1)]), (("msg_clear", 0), [("msg_append", 0), ("msg_append", 1)])],
+    "dns": [(("dreq_q_clear", 0), [("dreq_q_append", 0), ("dreq_q_append", 1)])],
+    "*": [(("meta_replace", 0), [("meta_set", 0), ("meta_set", 1), ("meta_nested", 0)]),
+          (("cc_offers", 2), [("cc_offers", 0), ("cc_offers", 1)]), (("cc_ciphers", 2), [("cc_ciphers", 0), ("cc_ciphers", 1)]),
+          (("cc_certs", 2), [("cc_certs", 0)]), (("sc_certs", 2), [("sc_certs", 0)])],
+}
 
 
 # ------------------------------------------------------------------------------------------ typed layer (HTTP flows)
@@ -146,7 +223,9 @@ RESP_ATOM = {k: i for i, k in enumerate(["http_version", "timestamp_start", "tim
 
 
 def _hx(b): return bytes(b).hex() if b else "-"
-def t_fields(h): return ",".join(_hx(k) + "=" + _hx(v) for k, v in h)
+def t_fields(h):
+    if not isinstance(h, (tuple, list)): return "X" + type(h).__name__          # a live object instead of a state value
+    return ",".join(_hx(k) + "=" + _hx(v) for k, v in h)
 def t_msg(st, ival):
     return (".".join(str(ival(v)) for k, v in st.items() if k not in MSG_SKIP) + "/" + t_fields(st["headers"]) + "/" +
             ("~" if st["content"] is None else _hx(st["content"])) + "/" + ("~" if st["trailers"] is None else "!" + t_fields(st["trailers"])))
@@ -211,6 +290,30 @@ def typed_edit(name, f, a, ival):
     if name == "resp_set":
         r = [None, tutils.tresp(), tutils.tresp(status_code=404)][a]
         return "resprep " + ("R~" if r is None else "R" + t_msg(r.get_state(), ival))
+    def conn_list(j, conn, key, new): return "conn %d %d %d" % (j, list(conn.get_state()).index(key), ival(new))
+    if name in ("cc_offers", "cc_ciphers", "cc_certs", "sc_certs"):
+        conn, j = (f.server_conn, 1) if name == "sc_certs" else (f.client_conn, 0)
+        key = {"cc_offers": "alpn_offers", "cc_ciphers": "cipher_list", "cc_certs": "certificate_list", "sc_certs": "certificate_list"}[name]
+        cur = conn.get_state()[key]                 # the list value before the edit; the new value is described, not observed
+        lim = 1 if key == "certificate_list" else 2
+        if a == 2 or len(cur) > lim: new = []
+        else: new = list(cur) + [{"alpn_offers": [b"h2", b"http/1.1"], "cipher_list": ["C1", "C2"]}.get(key, [_cert().to_pem()] * 2)[a]]
+        return conn_list(j, conn, key, new)
+    def trl(a): return ["~", "!", "!" + t_fields([(b"tr", b"1")])][a]
+    if name == "req_trailers": return "req tset " + trl(a)
+    if name == "resp_trailers": return "resp tset " + trl(a)
+    if name == "req_trailer_set": return "req thset %s %s" % (_hx(b"t%d" % (a % 2)), _hx(b"v%d" % a))
+    if name == "resp_trailer_set": return "resp thset %s %s" % (_hx(b"t%d" % (a % 2)), _hx(b"v%d" % a))
+    if name == "req_headers_new": return "req hrep " + ["!", "!" + t_fields([(b"only", b"1")]), "!"][a]
+    if name == "resp_headers_new": return "resp hrep " + ["!", "!" + t_fields([(b"only", b"1")]), "!"][a]
+    if name == "resp_header": return "resp hdel " + _hx(b"x-r") if a == 2 else "resp hset %s %s" % (_hx(b"x-r"), _hx(str(a).encode()))
+    if name == "req_content_none": return "req content " + ["~", "-", "~"][a]
+    if name == "resp_content_none": return "resp content " + ["~", "-", "~"][a]
+    if name == "dreq_q_clear": return "dreq qclear"
+    if name == "dreq_q_append":
+        if not len(f.request.questions) < 3: return None
+        return "dreq qappend %d.%d.%d" % (ival(["n0.example", "n1.example", "n2.example"][a]), ival(1), ival(1))
+    if name == "msg_clear": return "msgsrep T"
     if name == "msg_append":
         if not len(f.messages) < 5: return None
         return "msgs append %d.%s.%d" % (a % 2, _hx(b"x%d" % a), ival(946681204.9))
@@ -286,7 +389,10 @@ class Check(PropertyCheck):
                   "source's backup including the source's id, so reverting a copy gives it the source's id: modelled as "
                   "implemented (not part of the C40 statement).")
     technique = "Lean 4 proof (heap model, induction over operation histories) + differential model-vs-code correspondence"
-    rule = ("structured: for every flow type every edit x arg as [backup, edit, revert], [backup, edit, edit-back], "
+    rule = ("first, for every flow type, every container-valued component in its EMPTY-but-present form (trailers = Headers(), "
+            "headers = Headers(), empty message / WebSocket message / DNS question lists, empty metadata dict, empty "
+            "alpn_offers / cipher_list / certificate_list, b'' vs None bodies) set before a backup or copy and followed by in-place "
+            "edits of exactly that object on the original and on the copy; then structured: for every flow type every edit x arg as [backup, edit, revert], [backup, edit, edit-back], "
             "[edit, copy, edit], then random histories (3-16 ops, <=4 flows) over edits of all components, backup, revert, "
             "copy; distinct = distinct (type, initial shape, history); non-trivial = contains a backup or a copy.")
     budget = {"quick": 3000, "thorough": 80000}
@@ -300,7 +406,10 @@ class Check(PropertyCheck):
                     "mitmproxy.dns:DNSFlow.get_state", "mitmproxy.dns:DNSFlow.set_state",
                     "mitmproxy.coretypes.multidict:_MultiDict.set_all", "mitmproxy.coretypes.multidict:_MultiDict.__delitem__",
                     "mitmproxy.coretypes.multidict:_MultiDict.add", "mitmproxy.http:Message.set_content",
-                    "mitmproxy.http:Headers._kconv", "mitmproxy.flow:Flow.intercept", "mitmproxy.flow:Flow.resume"]
+                    "mitmproxy.http:Headers._kconv", "mitmproxy.flow:Flow.intercept", "mitmproxy.flow:Flow.resume",
+                    "mitmproxy.http:MessageData.get_state", "mitmproxy.http:MessageData.set_state",
+                    "mitmproxy.http:Message.get_state", "mitmproxy.http:Message.set_state", "mitmproxy.http:Message.copy",
+                    "mitmproxy.connection:Connection.get_state", "mitmproxy.connection:Connection.set_state"]
     trusted_base = ["component get_state()/from_state() of Request/Response/Message/Connection objects produce deep, "
                     "value-like states (observed, not proved)",
                     "canonical rendering of component states used to intern values (numbers compared by value)"]
@@ -349,6 +458,16 @@ class Check(PropertyCheck):
         shapes = [("http", 0, 0), ("http", 1, 0), ("http", 0, 1), ("ws", 1, 0), ("tcp", 0, 0), ("tcp", 0, 1),
                   ("udp", 0, 0), ("dns", 0, 0), ("dns", 1, 0), ("dns", 0, 1)]
         def mk(shape, ops): return {"type": shape[0], "resp": shape[1], "err": shape[2], "ops": ops}
+        # every container-valued component in its EMPTY-but-present form before backup / copy, then in-place edits of exactly
+        # that object (an empty container is falsy in Python: `if x:` instead of `is not None` shares or drops it)
+        for sh in shapes:
+            for emp, inplace in EMPTY_THEN.get(sh[0], []) + EMPTY_THEN["*"]:
+                if emp[0] not in EDITS[sh[0]]: continue
+                for ip_ in inplace:
+                    E, I, I2 = [emp[0], 0, emp[1]], [ip_[0], 0, ip_[1]], [ip_[0], 1, (ip_[1] + 1) % 2]
+                    yield mk(sh, [E, ["backup", 0, 0], I, ["revert", 0, 0]])
+                    yield mk(sh, [E, ["copy", 0, 0], I2, I, [ip_[0], 1, ip_[1]]])
+                    yield mk(sh, [E, ["backup", 0, 0], ["copy", 0, 0], I, ["revert", 0, 0], I2, ["revert", 1, 0], ["copy", 1, 0], [ip_[0], 2, ip_[1]]])
         for sh in shapes:
             yield mk(sh, [["backup", 0, 0]])
             yield mk(sh, [["copy", 0, 0], ["backup", 1, 0], ["revert", 1, 0]])
@@ -395,7 +514,9 @@ class Check(PropertyCheck):
                 st = f.get_state()
                 extra = set(st) - set(keys) - {"id", "backup", "version", "type"}
                 if extra: problems.append("unmodelled state keys %s" % sorted(extra))
+                del _ALIEN[:]
                 comps = [ival(st[k]) for k in keys]
+                if _ALIEN: problems.append("get_state() contains a live %s object instead of its state" % _ALIEN[0])
                 b = st["backup"]
                 if b is None: bk = None
                 else:
@@ -464,7 +585,7 @@ class Check(PropertyCheck):
     # ------------------------------------------------------------------ the property, on the real observations
     def oracle(self, case, obs):
         if "exc" in obs: return ["operation raised " + obs["exc"]]
-        fails = list(obs["problems"])
+        fails = []
         steps = obs["steps"]
         snap = {0: None}          # handle -> (id, comps) at the time of the effective backup() (harness-tracked)
         for k, (name, h, info) in enumerate(obs["applied"]):
@@ -508,7 +629,7 @@ class Check(PropertyCheck):
                                  f"{'differs from' if want else 'equals / has no'} backup")
                 if (post[b][3] is None) != (snap[b] is None) or (snap[b] is not None and tuple(post[b][3]) != snap[b]):
                     fails.append(f"step {k}: flow {b} embedded backup {post[b][3]} is not the backed-up state {snap[b]}")
-        return fails[:4]
+        return (fails + list(obs["problems"]))[:4]      # property clauses first, then observation problems
 
     # ------------------------------------------------------------------ model tie
     def model_lines(self, case):
